@@ -460,6 +460,13 @@ def rule_trunc(ctx):
                             and norm(pad.right.func) == 'bytes' and const_value(pad.right.args[0]) is not None:
                         w = const_value(it.args[1])
                         arr_ok = isinstance(w, int) and w + const_value(pad.right.args[0]) == 8
+                        # the array holds the numbers of THIS row only: it is created in the same loop iteration that
+                        # fills it (frombytes appends - an array made once per script hash accumulates earlier rows)
+                        adef_st = [st for st, rhs in d.get(arr.id, []) if rhs is adef[0]]
+                        inner_fb = [p for p, _f in q.enclosing_chain(q.stmt(fb[0]), hb.node) if isinstance(p, (ast.For, ast.While))]
+                        inner_def = [p for p, _f in q.enclosing_chain(adef_st[0], hb.node) if isinstance(p, (ast.For, ast.While))] if adef_st else []
+                        if not (inner_fb and inner_def and inner_fb[0] is inner_def[0]):
+                            arr_ok = False
         probe_ok = probe is not None and norm(probe) == hb.params[2]
         ok = nm == 'bisect_left' and arr_ok and probe_ok
         why = f'{nm}({norm(arr)}, {norm(probe)}): decoded-integer array ok={arr_ok}, probe is the tx count ok={probe_ok}'
@@ -647,6 +654,28 @@ def rule_range(ctx):
     return n + 1
 
 
+def rule_reorg_flush(ctx, rule='C03.REORGFLUSH'):
+    """reorg_chain flushes everything (under the state lock) before it asks the DB which blocks to back out: the hashes of
+    the blocks above the last flush exist only in memory until then, so a range computed first is read from files that do
+    not hold it (stale or missing hashes) and the wrong blocks are fetched and backed out."""
+    f = ctx.func('bp', 'BlockProcessor.reorg_chain')
+    cfg = ctx.cfg(f)
+    rh = ctx.func('bp', 'BlockProcessor._reorg_hashes')
+    fl = ctx.func('bp', 'BlockProcessor.flush')
+    reads = [q.stmt(c) for c in q.own_calls(f) if ctx.res.resolve_ref(c.func, f) is not None and ctx.res.resolve_ref(c.func, f).key == rh.key]
+    flushes = [q.stmt(c) for c in q.own_calls(f) if ctx.res.resolve_ref(c.func, f) is not None and ctx.res.resolve_ref(c.func, f).key == fl.key
+               and c.args and norm(c.args[0]) == 'True']
+    ok = len(reads) == 1 and bool(flushes)
+    p = None
+    if ok:
+        p = pr.path_avoiding(cfg, [cfg.entry], [cfg.node(reads[0])], {cfg.node(s_) for s_ in flushes})
+    ctx.check(ok and p is None, rule, ctx.key(f, reads[0] if reads else None, 'flushed before the range is read'),
+              'the reorganisation flushes everything before it reads the hashes to back out from the DB',
+              'the hashes to back out are read from the DB before the full flush: blocks processed since the last flush are not on '
+              'disk yet, so the range is computed from stale files', witness=cfg.describe_path(p) if p else None, loc=ctx.loc(f, f.node))
+    return 1
+
+
 def rule_heights(ctx):
     '''(height, hash) pairs given to the prefetcher attach start + i to the i-th hash of the ascending list.'''
     n = 0
@@ -771,6 +800,7 @@ def rule_touched(ctx, rule='C03.TOUCHED'):
 def run(ctx):
     ctx.rule('C03.TIPCHECK', lambda: rule_tipcheck(ctx), 5)
     ctx.rule('C03.UNDODUAL', lambda: rule_undodual(ctx), 7)
+    ctx.rule('C03.REORGFLUSH', lambda: rule_reorg_flush(ctx), 1)
     ctx.rule('C03.INVERSE', lambda: rule_inverse(ctx), 12)
     ctx.rule('C03.TRUNC', lambda: rule_trunc(ctx), 3)
     ctx.rule('C03.FLUSHFIRST', lambda: rule_flushfirst(ctx), 2)
